@@ -30,7 +30,7 @@ import networkx
 FINAL_STATES = (codes.FINISHED_STATE, codes.FAILED_STATE, codes.SHUTDOWN_STATE)
 
 RC_OF = {'Success': 0, 'KnownIssue': 1, 'UnknownIssue': 2, 'SystemIssue': 130, 'ResourceExhausted': 24,
-         'Killed': -9, 'Cancelled': -15}
+         'Killed': -9, 'Cancelled': -15, 'SubmissionFailed': 1}
 
 
 class Recorder:
